@@ -42,7 +42,7 @@ func loadProgram(repo string, debug bool) (*G, funcIndex, error) {
 	if nerr > 0 {
 		return nil, nil, fmt.Errorf("%d package load errors", nerr)
 	}
-	prog, _ := ssautil.AllPackages(pkgs, ssa.InstantiateGenerics)
+	prog, _ := ssautil.AllPackages(pkgs, ssa.InstantiateGenerics|ssa.GlobalDebug) // GlobalDebug: DebugRef instructions name the source-level locals (used by loop invariants)
 	for _, p := range prog.AllPackages() {
 		path := p.Pkg.Path()
 		if strings.HasPrefix(path, repoPrefix) || path == "github.com/eclipse/paho.mqtt.golang/packets" {
